@@ -201,6 +201,12 @@ func scenC13(r *Run) {
 					r.Fail("C13:over-limit-processed:"+kind+":"+decl, "limit %d: a datagram carrying %d body bytes (%s) was processed: IO plugin ran %d times, function %d times", L, size, decl, dio, dfn)
 					return
 				}
+				if kind == "socket" && decl == "declared-larger" && size+5 > L && !strings.HasPrefix(o.rawStatus, "error-frame:") {
+					// the header alone says the request is too large: the refusal must not wait for the body (the
+					// peer here sends fewer bytes than it declared and then waits for the answer)
+					r.Fail("C13:refusal-waits-for-the-body:"+kind+":"+decl, "limit %d: a frame declaring %d bytes and carrying %d got no request-too-large frame within 2 s: %s %v", L, size+5, size, o.rawStatus, o.err)
+					return
+				}
 				if over && o.rawStatus == "normal-response" && decl == "declared-larger" {
 					r.Fail("C13:no-too-large-signal:"+kind+":"+decl, "limit %d, %d bytes sent: normal response", L, size)
 					return
